@@ -1,0 +1,11 @@
+//go:build verif
+
+// Contracts for the verification engine in /verif (comment-only file; it is
+// compiled only with the build tag "verif" and contains no code).
+
+package utils
+
+//@ func (*Args).Reset
+//@   property C20
+//@   modifies a.args
+//@   ensures[empty] len(a.args) == 0
